@@ -484,6 +484,13 @@ def main(argv=None):
         log(broken_corr)
     else:
         r = one_round(pid, cfg, seed, n, tier, "main", timeout)
+        if any("inconsistent assumptions" in e or "bad version number" in e or "Cannot find a physical path" in e for e in r["errors"]):
+            # a concurrent check rebuilt a shared .vo between our make and the shard evaluation
+            log("[%s] shared library changed under us; rebuilding and re-running once" % pid)
+            shutil.rmtree(r["outdir"], ignore_errors=True)
+            b2 = gen_and_build(pid, cfg)
+            if b2["ok"]:
+                r = one_round(pid, cfg, seed, n, tier, "main", timeout)
         rounds.append(r)
         log("[%s] %d cases, %d oracle failures, %d mismatches, %d direct, %d errors" % (
             pid, len(r["cases"]), len(r["oracle"]), len(r["mismatch"]), len(r["direct"]), len(r["errors"])))
